@@ -22,11 +22,12 @@ import (
 	"golang.org/x/tools/go/ssa"
 )
 
-const maxStates = 24
+const maxStates = 48
 
 type pstate struct {
 	lits map[string]bool
 	bind map[ssa.Value]ssa.Value
+	k    string // cached key, valid once the state is stored in Facts.in
 }
 
 func newPState() *pstate { return &pstate{lits: map[string]bool{}, bind: map[ssa.Value]ssa.Value{}} }
@@ -89,7 +90,46 @@ type Facts struct {
 	storedIn map[*ssa.BasicBlock][]*ssa.Alloc // loop head -> cells stored inside the loop
 	merged   bool                             // state cap hit somewhere (precision lost, still sound)
 	tr       *termRenderer
+	focus    *regexp.Regexp // when set, only literals matching it are tracked (keeps the state space small)
+	dropBind bool           // when set, only bool/error-typed phi and cell bindings (and those named in bindKeep) are tracked
+	bindKeep map[string]bool
+	cap      int
 }
+
+func (f *Facts) keepLit(l string) bool { return f.focus == nil || f.focus.MatchString(l) }
+
+func (f *Facts) keepBind(v ssa.Value) bool {
+	if !f.dropBind {
+		return true
+	}
+	t := v.Type()
+	name := ""
+	if a, ok := v.(*ssa.Alloc); ok {
+		t = a.Type().Underlying().(*types.Pointer).Elem()
+		name = a.Comment
+	}
+	if p, ok := v.(*ssa.Phi); ok {
+		name = p.Comment
+	}
+	if f.bindKeep[name] {
+		return true
+	}
+	return isBoolType(t) || isErrorType(t)
+}
+
+// FactsFocus computes path facts tracking only literals that match focus (a projection: sound, and immune to state
+// explosion caused by irrelevant branches).
+func (c *Ctx) FactsFocus(fn *ssa.Function, focus string, dropBind bool, keep ...string) *Facts {
+	key := fmt.Sprintf("%p|%s|%v|%v", fn, focus, dropBind, keep)
+	if f, ok := focusCache[key]; ok {
+		return f
+	}
+	f := computeFactsOpt(fn, regexp.MustCompile(focus), dropBind, keep...)
+	focusCache[key] = f
+	return f
+}
+
+var focusCache = map[string]*Facts{}
 
 var factsCache = map[*ssa.Function]*Facts{}
 
@@ -102,9 +142,18 @@ func (c *Ctx) Facts(fn *ssa.Function) *Facts {
 	return f
 }
 
-func computeFacts(fn *ssa.Function) *Facts {
-	f := &Facts{fn: fn, in: map[*ssa.BasicBlock][]*pstate{}, cells: map[*ssa.Alloc]bool{},
+func computeFacts(fn *ssa.Function) *Facts { return computeFactsOpt(fn, nil, false) }
+
+func computeFactsOpt(fn *ssa.Function, focus *regexp.Regexp, dropBind bool, keep ...string) *Facts {
+	f := &Facts{fn: fn, focus: focus, dropBind: dropBind, bindKeep: map[string]bool{}, in: map[*ssa.BasicBlock][]*pstate{}, cells: map[*ssa.Alloc]bool{},
 		loopHead: map[*ssa.BasicBlock]bool{}, storedIn: map[*ssa.BasicBlock][]*ssa.Alloc{}, tr: newTermRenderer(fn)}
+	for _, k := range keep {
+		f.bindKeep[k] = true
+	}
+	f.cap = maxStates
+	if focus != nil {
+		f.cap = 1024
+	}
 	if len(fn.Blocks) == 0 {
 		return f
 	}
@@ -223,7 +272,7 @@ func (f *Facts) transferBlock(b *ssa.BasicBlock, cur *pstate, stop ssa.Instructi
 		}
 		switch x := ins.(type) {
 		case *ssa.Store:
-			if a, ok := x.Addr.(*ssa.Alloc); ok && f.cells[a] {
+			if a, ok := x.Addr.(*ssa.Alloc); ok && f.cells[a] && f.keepBind(a) {
 				cur.bind[a] = resolve(cur, x.Val)
 			}
 		case *ssa.UnOp:
@@ -250,9 +299,13 @@ func (f *Facts) addCallFacts(cur *pstate, cc *ssa.CallCommon, prefix string) {
 	if name == "" {
 		return
 	}
-	cur.lits[prefix+name] = true
+	if f.keepLit(prefix + name) {
+		cur.lits[prefix+name] = true
+	}
 	if prefix == "call:" {
-		cur.lits["called:"+f.tr.callTerm(cur, cc, 0)] = true
+		if l := "called:" + f.tr.callTerm(cur, cc, 0); f.keepLit(l) {
+			cur.lits[l] = true
+		}
 	}
 }
 
@@ -332,7 +385,7 @@ func (f *Facts) propagate(b *ssa.BasicBlock, cur *pstate, isBack func(u, v *ssa.
 			if !ok {
 				break
 			}
-			if idx >= 0 && idx < len(p.Edges) {
+			if idx >= 0 && idx < len(p.Edges) && f.keepBind(p) {
 				s.bind[p] = resolve(s, p.Edges[idx])
 			}
 		}
@@ -352,7 +405,9 @@ func (f *Facts) propagate(b *ssa.BasicBlock, cur *pstate, isBack func(u, v *ssa.
 		for si, succ := range b.Succs {
 			s := cur.clone()
 			for _, l := range f.tr.literals(s, cond, si == 0) {
-				s.lits[l] = true
+				if f.keepLit(l) {
+					s.lits[l] = true
+				}
 			}
 			// contradiction pruning: a state holding both L and its negation is infeasible
 			if f.infeasible(s, cond, si == 0) {
@@ -376,18 +431,53 @@ func (f *Facts) infeasible(s *pstate, cond ssa.Value, pol bool) bool {
 
 func (f *Facts) addState(b *ssa.BasicBlock, s *pstate) {
 	k := s.key()
+	s.k = k
 	for _, o := range f.in[b] {
-		if o.key() == k {
+		if o.k == k {
 			return
 		}
 	}
 	f.in[b] = append(f.in[b], s)
-	if len(f.in[b]) > maxStates {
-		m := f.in[b][0]
-		for _, o := range f.in[b][1:] {
-			m = intersect(m, o)
+	for len(f.in[b]) > f.cap {
+		// merge the two most similar states (keeps as many literals as possible; still a sound under-approximation)
+		st := f.in[b]
+		bi, bj, best := 0, 1, -1
+		for i := 0; i < len(st); i++ {
+			for j := i + 1; j < len(st); j++ {
+				n := 0
+				for k := range st[i].lits {
+					if st[j].lits[k] {
+						n++
+					}
+				}
+				// prefer pairs that lose the fewest literals
+				score := 2*n - len(st[i].lits) - len(st[j].lits)
+				if best == -1 || score > best-1000000 && score+1000000 > best {
+					if best == -1 || score+1000000 > best {
+						best, bi, bj = score+1000000, i, j
+					}
+				}
+			}
 		}
-		f.in[b] = []*pstate{m}
+		m := intersect(st[bi], st[bj])
+		var out []*pstate
+		for i, o := range st {
+			if i != bi && i != bj {
+				out = append(out, o)
+			}
+		}
+		dup := false
+		mk := m.key()
+		m.k = mk
+		for _, o := range out {
+			if o.k == mk {
+				dup = true
+			}
+		}
+		if !dup {
+			out = append(out, m)
+		}
+		f.in[b] = out
 		f.merged = true
 	}
 }
@@ -465,6 +555,9 @@ func (f *Facts) AcceptingReturns(idx int, wantBool bool) []ReturnState {
 			}
 			if mi, ok := v.(*ssa.MakeInterface); ok && isErrorType(ret.Results[i].Type()) {
 				_ = mi // a concrete non-nil error value
+				continue
+			}
+			if neverNilError(v) || sentinelError(v) {
 				continue
 			}
 			if isBoolType(v.Type()) {
@@ -580,10 +673,21 @@ func guardLits(s *pstate) []string {
 type termRenderer struct {
 	fn       *ssa.Function
 	paramStr map[*ssa.Parameter]string
+	allocOrd map[*ssa.Alloc]int
 }
 
 func newTermRenderer(fn *ssa.Function) *termRenderer {
-	t := &termRenderer{fn: fn, paramStr: map[*ssa.Parameter]string{}}
+	t := &termRenderer{fn: fn, paramStr: map[*ssa.Parameter]string{}, allocOrd: map[*ssa.Alloc]int{}}
+	acnt := map[string]int{}
+	for _, b := range fn.Blocks {
+		for _, ins := range b.Instrs {
+			if a, ok := ins.(*ssa.Alloc); ok && a.Heap {
+				ts := typeShort(a.Type())
+				acnt[ts]++
+				t.allocOrd[a] = acnt[ts]
+			}
+		}
+	}
 	cnt := map[string]int{}
 	for _, p := range fn.Params {
 		ts := typeShort(p.Type())
@@ -659,7 +763,11 @@ func (t *termRenderer) term(s *pstate, v ssa.Value, d int) string {
 		return t.term(s, x.X, d+1) + "[" + lo + ":" + hi + "]"
 	case *ssa.Alloc:
 		if x.Heap {
-			return "new(" + typeShort(x.Type().Underlying().(*types.Pointer).Elem()) + ")"
+			r := "new(" + typeShort(x.Type().Underlying().(*types.Pointer).Elem()) + ")"
+			if o := t.allocOrd[x]; o > 1 {
+				r += fmt.Sprintf("~%d", o)
+			}
+			return r
 		}
 		return "var:" + x.Comment
 	case *ssa.IndexAddr:
@@ -864,8 +972,32 @@ func (t *termRenderer) threeWay(s *pstate, l, r ssa.Value, op token.Token) (stri
 // MustOnAccept: on every accepting return path of fn a literal matching each pattern holds.
 // patterns: name -> regexp over normalised literals.
 type LitReq struct {
-	Name string
-	Re   string
+	Name   string
+	Re     string
+	Unless string // states carrying a literal matching Unless are exempt (conditional obligation C => must(L))
+}
+
+func (r LitReq) check(states []*pstate) (ok bool, witness string, failing *pstate, exempt int) {
+	re := regexp.MustCompile(r.Re)
+	var un *regexp.Regexp
+	if r.Unless != "" {
+		un = regexp.MustCompile(r.Unless)
+	}
+	ok = true
+	for _, s := range states {
+		if un != nil {
+			if _, has := hasLit(s, un); has {
+				exempt++
+				continue
+			}
+		}
+		if l, has := hasLit(s, re); has {
+			witness = l
+		} else {
+			return false, "", s, exempt
+		}
+	}
+	return ok, witness, nil, exempt
 }
 
 func (c *Ctx) MustOnAccept(rule string, fn *ssa.Function, resIdx int, wantBool bool, reqs []LitReq) {
@@ -875,25 +1007,25 @@ func (c *Ctx) MustOnAccept(rule string, fn *ssa.Function, resIdx int, wantBool b
 		c.Ob(rule, shortFn(fn)+": accepting return exists", c.FnPos(fn), false, "no accepting return path found (analysis cannot decide)")
 		return
 	}
+	var states []*pstate
+	for _, r := range rets {
+		states = append(states, r.State)
+	}
+	c.mustStates(rule, fn, "accepting return", states, reqs)
+}
+
+func (c *Ctx) mustStates(rule string, fn *ssa.Function, where string, states []*pstate, reqs []LitReq) {
 	for _, r := range reqs {
-		re := regexp.MustCompile(r.Re)
-		ok := true
-		detail := ""
-		pos := c.FnPos(fn)
-		for _, rs := range rets {
-			if l, has := hasLit(rs.State, re); has {
-				detail = "e.g. " + l
-			} else {
-				ok = false
-				pos = c.Position(rs.Ret.Pos())
-				if pos == "" {
-					pos = c.FnPos(fn)
-				}
-				detail = fmt.Sprintf("an accepting path (return at %s) lacks a literal matching /%s/; literals on that path: %s", pos, r.Re, strings.Join(guardLits(rs.State), "; "))
-				break
-			}
+		ok, w, failing, exempt := r.check(states)
+		detail := fmt.Sprintf("%d path states at %s, %d exempt; e.g. %s", len(states), where, exempt, w)
+		if ok && exempt == len(states) {
+			ok = false
+			detail = fmt.Sprintf("all %d path states at %s are exempt by /%s/: obligation is vacuous", len(states), where, r.Unless)
 		}
-		c.Ob(rule, shortFn(fn)+": "+r.Name, pos, ok, detail)
+		if !ok && failing != nil {
+			detail = fmt.Sprintf("a path to %s lacks a literal matching /%s/; guard literals on that path: %s", where, r.Re, strings.Join(guardLits(failing), "; "))
+		}
+		c.Ob(rule, shortFn(fn)+": "+r.Name, c.FnPos(fn), ok, detail)
 	}
 }
 
@@ -905,21 +1037,155 @@ func (c *Ctx) MustBefore(rule string, fn *ssa.Function, callRe string, minSites 
 		c.Ob(rule, shortFn(fn)+": call "+callRe+" present", c.FnPos(fn), false, fmt.Sprintf("expected at least %d call sites matching /%s/, found %d", minSites, callRe, len(sites)))
 		return
 	}
-	for _, r := range reqs {
-		re := regexp.MustCompile(r.Re)
-		ok := true
-		detail := ""
-		pos := c.FnPos(fn)
-		for _, site := range sites {
-			good, w := allHave(f.At(site), re)
-			if !good {
-				ok = false
-				pos = c.Position(site.Pos())
-				detail = fmt.Sprintf("a path to %s lacks a literal matching /%s/; literals on that path: %s", calleeName(site.Common()), r.Re, w)
-				break
-			}
-			detail = "e.g. " + w
-		}
-		c.Ob(rule, shortFn(fn)+": "+r.Name, pos, ok, detail)
+	var states []*pstate
+	for _, site := range sites {
+		states = append(states, f.At(site)...)
 	}
+	c.mustStates(rule, fn, "call "+callRe, states, reqs)
+}
+
+// LoopBackStates returns the path states at the end of every back edge of the innermost loop containing a call
+// matching callRe: what holds on every path through one full iteration that continues the loop.
+func (f *Facts) LoopBackStates(callRe string) []*pstate {
+	sites := f.Calls(regexp.MustCompile(callRe))
+	if len(sites) == 0 {
+		return nil
+	}
+	cb := sites[0].Block()
+	// innermost loop head dominating cb with a back edge source dominated by head and reachable from cb
+	var head *ssa.BasicBlock
+	for h := range f.loopHead {
+		if !h.Dominates(cb) {
+			continue
+		}
+		inLoop := false
+		for _, p := range h.Preds {
+			if h.Dominates(p) && reaches(cb, p, h) {
+				inLoop = true
+			}
+		}
+		if !inLoop {
+			continue
+		}
+		if head == nil || head.Dominates(h) {
+			head = h
+		}
+	}
+	if head == nil {
+		return nil
+	}
+	var out []*pstate
+	for _, p := range head.Preds {
+		if !head.Dominates(p) {
+			continue
+		}
+		for _, s := range f.in[p] {
+			cur := s.clone()
+			f.transferBlock(p, cur, nil)
+			if ifi, ok := p.Instrs[len(p.Instrs)-1].(*ssa.If); ok {
+				cond := resolve(cur, ifi.Cond)
+				pol := p.Succs[0] == head
+				if f.infeasible(cur, cond, pol) {
+					continue
+				}
+				for _, l := range f.tr.literals(cur, cond, pol) {
+					cur.lits[l] = true
+				}
+			}
+			out = append(out, cur)
+		}
+	}
+	return out
+}
+
+// reaches: is `to` reachable from `from` without passing through `avoid` (forward CFG walk)?
+func reaches(from, to, avoid *ssa.BasicBlock) bool {
+	seen := map[*ssa.BasicBlock]bool{}
+	var walk func(b *ssa.BasicBlock) bool
+	walk = func(b *ssa.BasicBlock) bool {
+		if b == to {
+			return true
+		}
+		if seen[b] || b == avoid {
+			return false
+		}
+		seen[b] = true
+		for _, s := range b.Succs {
+			if walk(s) {
+				return true
+			}
+		}
+		return false
+	}
+	return walk(from)
+}
+
+func (c *Ctx) MustLoopBack(rule string, fn *ssa.Function, callRe string, reqs []LitReq) {
+	f := c.Facts(fn)
+	st := f.LoopBackStates(callRe)
+	if len(st) == 0 {
+		c.Ob(rule, shortFn(fn)+": loop containing "+callRe, c.FnPos(fn), false, "no loop containing a call matching /"+callRe+"/ found")
+		return
+	}
+	c.mustStates(rule, fn, "loop iteration end (loop containing "+callRe+")", st, reqs)
+}
+
+func mustRe(s string) *regexp.Regexp { return regexp.MustCompile(s) }
+
+
+// PhiRow is one path state at the join that defines a named variable: the value selected and the literals that hold.
+type PhiRow struct {
+	Val   string
+	State *pstate
+}
+
+// PhiTable finds the last phi (highest block) named `name` in fn and returns, for every path state entering its
+// block, the value the phi takes on that path.
+func (f *Facts) PhiTable(name string) (*ssa.Phi, []PhiRow) {
+	var phi *ssa.Phi
+	for _, b := range f.fn.Blocks {
+		for _, ins := range b.Instrs {
+			if p, ok := ins.(*ssa.Phi); ok && p.Comment == name {
+				if phi == nil || p.Block().Index > phi.Block().Index {
+					phi = p
+				}
+			}
+		}
+	}
+	if phi == nil {
+		return nil, nil
+	}
+	var rows []PhiRow
+	for _, s := range f.in[phi.Block()] {
+		rows = append(rows, PhiRow{Val: f.tr.term(s, phi, 0), State: s})
+	}
+	return phi, rows
+}
+
+
+// neverNilError: calls that construct an error (fmt.Errorf, errors.New) never return nil.
+func neverNilError(v ssa.Value) bool {
+	call, ok := v.(*ssa.Call)
+	if !ok {
+		return false
+	}
+	f := call.Call.StaticCallee()
+	if f == nil || f.Pkg == nil {
+		return false
+	}
+	switch f.Pkg.Pkg.Path() + "." + f.Name() {
+	case "fmt.Errorf", "errors.New":
+		return true
+	}
+	return false
+}
+
+// sentinelError: a load of a package-level error variable (ErrX = errors.New(...)); assumed non-nil.
+func sentinelError(v ssa.Value) bool {
+	u, ok := v.(*ssa.UnOp)
+	if !ok || u.Op != token.MUL {
+		return false
+	}
+	_, ok = u.X.(*ssa.Global)
+	return ok && isErrorType(u.Type())
 }
